@@ -480,7 +480,17 @@ func c14Tm(rng *rand.Rand, n int, _ []string) {
 			fmt.Fprintf(&sb, "%s: /%s/\n", m.terms[t], m.terms[t])
 		}
 		sb.WriteString("invalid_token:\n\n:: parser\n\n")
-		for _, p := range m.params {
+		// half of the plain flags are declared inline in the headers of the nonterminals that take them (one
+		// declaration per nonterminal, same name): their values travel between nonterminals by NAME
+		inline := make([]bool, len(m.params))
+		for j, p := range m.params {
+			inline[j] = !p.la && rng.Intn(2) == 0
+		}
+		for j, p := range m.params {
+			if inline[j] {
+				stats["tm-inline-params"]++
+				continue
+			}
 			if p.la {
 				fmt.Fprintf(&sb, "%%lookahead flag %s = %s;\n", p.name, p.def)
 			} else if p.def != "" {
@@ -495,7 +505,14 @@ func c14Tm(rng *rand.Rand, n int, _ []string) {
 			if len(nt.params) > 0 {
 				var ps []string
 				for _, p := range nt.params {
-					ps = append(ps, m.params[p].name)
+					switch {
+					case inline[p] && m.params[p].def != "":
+						ps = append(ps, fmt.Sprintf("flag %s = %s", m.params[p].name, m.params[p].def))
+					case inline[p]:
+						ps = append(ps, "flag "+m.params[p].name)
+					default:
+						ps = append(ps, m.params[p].name)
+					}
 				}
 				sb.WriteString("<" + strings.Join(ps, ", ") + ">")
 			}
@@ -525,10 +542,14 @@ func c14Tm(rng *rand.Rand, n int, _ []string) {
 			if err != nil {
 				msg = err.Error()
 			}
-			if stats["tm-not-compiled"] <= 3 {
+			if stats["tm-not-compiled"] <= 3 || os.Getenv("VERIF_ALLERR") != "" {
 				fmt.Fprintf(os.Stderr, "c14.tm: not compiled: %s\n%s\n", firstLines(msg, 3), text)
 			}
-			sx.Case("c14.tm", m.str(), sx.List("err"))
+			cls := "other"
+			if strings.Contains(msg, "uninitialized parameter") {
+				cls = "uninitialized" // the generator provides every parameter (explicitly, by name or by default)
+			}
+			sx.Case("c14.tm", m.str(), sx.List("err", cls))
 			continue
 		}
 		stats["tm-compiled"]++
